@@ -615,6 +615,7 @@ func (e *simEnv) checkCompleteness(res drive.Result, f *refmatch.Flow, js []judg
 	c := e.c
 	v := e.spec.V
 	e.checkUnread(res, f, tag)
+	e.checkHiddenByFilter(res, f, tag)
 	hops := res.Run.Hops
 	first := int(e.spec.MinTTL)
 	sentAt := map[int]*refmatch.Probe{}
@@ -685,6 +686,44 @@ func (e *simEnv) checkUnread(res drive.Result, f *refmatch.Flow, tag string) {
 			continue // beyond the destination hop
 		}
 		e.c.Violate("C02", "reply-never-read/"+v.Name, fmt.Sprintf("%s: frame #%d (%s, answers probe %d) reached the capture handle %v before the end of the listening window but was never read", tag, d.Frame.ID, d.Frame.Class, o.TTL, end.Sub(d.At)+poll), fmtRun(res))
+		return
+	}
+}
+
+// checkHiddenByFilter: with the variant's own capture filter enforced in front of the handle, a must-accept reply the
+// filter dropped (inside its listening window) leaves its hop empty - the filter is part of the receive path (C02).
+func (e *simEnv) checkHiddenByFilter(res drive.Result, f *refmatch.Flow, tag string) {
+	if e.handle == nil || e.w.Mode != simnet.FilterEnforce {
+		return
+	}
+	v := e.spec.V
+	e.w.Lock()
+	var hidden []*simnet.Delivery
+	for _, d := range e.w.Deliveries {
+		if d.Handle == e.handle.Idx && d.Filtered && !d.Read && !d.Drained && d.FilteredTick > 0 {
+			hidden = append(hidden, d)
+		}
+	}
+	e.w.Unlock()
+	sentAt := map[int]*refmatch.Probe{}
+	for _, p := range f.Probes {
+		sentAt[p.TTL] = p
+	}
+	for _, d := range hidden {
+		o := refmatch.Ref(f, d.Frame.Bytes, d.FilteredTick)
+		if o.Kind != refmatch.Accept || o.OrLater {
+			continue
+		}
+		p := sentAt[o.TTL]
+		if p == nil || d.FilteredAt.After(p.SentAt.Add(e.spec.Timeout-e.spec.EffectivePoll())) {
+			continue // outside the probe's own window (serial) / near the end of the listening window
+		}
+		idx := o.TTL - int(e.spec.MinTTL)
+		if idx < 0 || idx >= len(res.Run.Hops) || len(res.Run.Hops[idx].IPAddress) > 0 {
+			continue
+		}
+		e.c.Violate("C02", "reply-hidden-by-filter/"+v.Name+"/"+d.Frame.Class, fmt.Sprintf("%s: hop %d empty: frame #%d (%s from %s, answers probe %d inside its window) was dropped by the capture filter the run installed", tag, o.TTL, d.Frame.ID, d.Frame.Class, outerSrc(d.Frame.Bytes), o.TTL),
+			map[string]any{"variant": v.Name, "result": fmtRun(res), "frame": fmt.Sprintf("%x", d.Frame.Bytes)})
 		return
 	}
 }
